@@ -17,20 +17,29 @@ def msg(mid, payload):
     return "msg %02x %s" % (mid, hx(payload))
 
 
+def zone_name(inst, z):
+    """optional `name` (str) in the zone description; default Z<number>"""
+    return inst["zones"][z].get("name", "Z%d" % z).encode()
+
+
+def ac_name(a):
+    return a.get("name", "AC%d" % a["id"]).encode()
+
+
 # ------------------------------------------------------------------------------------------------ AirTouch 4
 def at4_handshake(inst):
     ops = ["init", "conn 1"]
-    text = b"1.2.3"
-    ops.append(msg(0x1F, bytes([0xFF, 0x30, 0, len(text)]) + text))
+    text = inst.get("version", "1.2.3").encode()
+    ops.append(msg(0x1F, bytes([0xFF, 0x30, inst.get("update", 0), len(text)]) + text))
     body = b""
     for z in sorted(inst["zones"]):
-        body += bytes([z]) + ("Z%d" % z).encode().ljust(8, b"\0")
+        body += bytes([z]) + zone_name(inst, z)[:8].ljust(8, b"\0")
     ops.append(msg(0x1F, bytes([0xFF, 0x12]) + body))
     body = b""
     for a in inst["acs"]:
         bitmap = sum(1 << z for z in a["zones"])
-        body += (bytes([a["id"], 24]) + ("AC%d" % a["id"]).encode().ljust(16, b"\0")
-                 + bytes([0, 0, a["modes"], a["fans"], a["lo"], a["hi"], bitmap & 0xFF, bitmap >> 8]))
+        body += (bytes([a["id"], 24]) + ac_name(a)[:16].ljust(16, b"\0")
+                 + bytes([a.get("start", 0), a.get("count", 0), a["modes"], a["fans"], a["lo"], a["hi"], bitmap & 0xFF, bitmap >> 8]))
     ops.append(msg(0x1F, bytes([0xFF, 0x11]) + body))
     body = b""
     for a in inst["acs"]:
@@ -57,17 +66,17 @@ def cs(sub, rl, recs):
 
 def at5_handshake(inst):
     ops = ["init", "conn 1"]
-    text = b"1.2.3"
-    ops.append(msg(0x1F, bytes([0xFF, 0x30, 0, len(text)]) + text))
+    text = inst.get("version", "1.2.3").encode()
+    ops.append(msg(0x1F, bytes([0xFF, 0x30, inst.get("update", 0), len(text)]) + text))
     body = b""
     for z in sorted(inst["zones"]):
-        n = ("Z%d" % z).encode()
+        n = zone_name(inst, z)
         body += bytes([z, len(n)]) + n
     ops.append(msg(0x1F, bytes([0xFF, 0x13]) + body))
     body = b""
     for a in inst["acs"]:
         zs = a["zones"]
-        body += (bytes([a["id"], 24]) + ("AC%d" % a["id"]).encode().ljust(16, b"\0")
+        body += (bytes([a["id"], 24]) + ac_name(a)[:16].ljust(16, b"\0")
                  + bytes([min(zs) if zs else 0, len(zs), a["modes"], a["fans"], a["lo"], a["hi"], a.get("lo_heat", a["lo"]), a.get("hi_heat", a["hi"])]))
     ops.append(msg(0x1F, bytes([0xFF, 0x11]) + body))
     ops.append(cs(0x23, 10, [[(a.get("power", 1) << 4) | a["id"], (a.get("mode", 4) << 4) | a.get("fan", 0),
@@ -103,3 +112,336 @@ def installs(gen, thorough=False):
                         zones={z: dict(sensor=True, ctrl=1) for z in range(16)}))
         out.append(dict(acs=[dict(id=1, modes=0x1F, fans=full_fans, lo=0 if gen == 4 else 10, hi=63 if gen == 4 else 35, zones=[9], mode=4)], zones={9: dict(sensor=True, ctrl=1)}))
     return out
+
+
+# ================================================================================================ status frames after the handshake
+# (added for C10 / C12; byte by byte from the vendor layouts; every field is a raw code so that each defined value can be produced)
+def temp_raw(tenths):
+    """the 11-bit temperature VALUE of both generations: (VALUE - 500) / 10 degC; None = not available"""
+    return None if tenths is None else tenths + 500
+
+
+def at4_ac_status(recs):
+    """0x2D; rec: id power mode fan spill timer setpoint(whole degC 0..63) temp(tenths | None) err"""
+    body = b""
+    for r in recs:
+        v = temp_raw(r.get("temp", 235))
+        b5, b6 = (0xFF, 0) if v is None else (v >> 3, (v & 7) << 5)
+        body += bytes([(r.get("power", 1) << 6) | r["id"], (r.get("mode", 4) << 4) | r.get("fan", 0),
+                       (r.get("spill", 0) << 7) | (r.get("timer", 0) << 6) | (r.get("setpoint", 22) & 0x3F), 0, b5, b6,
+                       r.get("err", 0) >> 8, r.get("err", 0) & 255])
+    return msg(0x2D, body)
+
+
+def at4_group_status(recs):
+    """0x2B; rec: id power ctrl damper batt turbo setpoint(whole degC) sensor temp(tenths | None) spill"""
+    body = b""
+    for r in recs:
+        v = temp_raw(r.get("temp", 225))
+        b5, b6 = (0xFF, 0) if v is None else (v >> 3, (v & 7) << 5)
+        body += bytes([(r.get("power", 1) << 6) | r["id"], (r.get("ctrl", 0) << 7) | r.get("damper", 50),
+                       (r.get("batt", 0) << 7) | (r.get("turbo", 0) << 6) | (r.get("setpoint", 22) & 0x3F),
+                       r.get("sensor", 0) << 7, b5, b6 | (r.get("spill", 0) << 4)])
+    return msg(0x2B, body)
+
+
+def timer_bytes(t):
+    """t = None (disabled) | (hour, minute) | (disabled flag, hour, minute)"""
+    if t is None:
+        return [0x80, 0]
+    if len(t) == 2:
+        return [t[0] & 0x1F, t[1] & 0x3F]
+    return [(t[0] << 7) | (t[1] & 0x1F), t[2] & 0x3F]
+
+
+def at4_timer_status(timers):
+    """0x37 (not in the vendor document): always four ACs, AC number = position; timers: dict ac -> (on, off)"""
+    body = []
+    for ac in range(4):
+        on, off = timers.get(ac, (None, None))
+        body += timer_bytes(on) + timer_bytes(off) + [0, 0, 0, 0]
+    return msg(0x37, body)
+
+
+def at5_ac_status(recs, stride=10):
+    """0xC0 0x23; rec: id power mode fan turbo bypass spill timer setpoint(raw byte) temp(tenths | None -> 2047) err"""
+    out = []
+    for r in recs:
+        v = temp_raw(r.get("temp", 235))
+        v = 2047 if v is None else v
+        out.append([(r.get("power", 1) << 4) | r["id"], (r.get("mode", 4) << 4) | r.get("fan", 0), r.get("setpoint", 120),
+                    (r.get("turbo", 0) << 3) | (r.get("bypass", 0) << 2) | (r.get("spill", 0) << 1) | r.get("timer", 0),
+                    v >> 8, v & 255, r.get("err", 0) >> 8, r.get("err", 0) & 255] + [0] * (stride - 8))
+    return cs(0x23, stride, out)
+
+
+def at5_zone_status(recs, stride=8):
+    """0xC0 0x21; rec: id power ctrl damper setpoint(raw byte, 255 = invalid) sensor temp(tenths | None) spill batt"""
+    out = []
+    for r in recs:
+        v = temp_raw(r.get("temp", 225))
+        v = 2047 if v is None else v
+        out.append([(r.get("power", 1) << 6) | r["id"], (r.get("ctrl", 0) << 7) | r.get("damper", 50), r.get("setpoint", 120),
+                    r.get("sensor", 0) << 7, v >> 8, v & 255, (r.get("spill", 0) << 1) | r.get("batt", 0), 0] + [0] * (stride - 8))
+    return cs(0x21, stride, out)
+
+
+def at5_timer_status(timers, stride=9):
+    """0xC0 0x33 (not in the vendor document); timers: list of (ac, on, off)"""
+    return cs(0x33, stride, [[ac] + timer_bytes(on) + timer_bytes(off) + [0] * (stride - 5) for ac, on, off in timers])
+
+
+def err_info(gen, ac, text):
+    """0x1F 0xFF 0x10: `text` bytes (empty = no error)"""
+    return msg(0x1F, bytes([0xFF, 0x10, ac, len(text)]) + bytes(text))
+
+
+def console_version(gen, update, versions):
+    """0x1F 0xFF 0x30: versions joined with "|" (AirTouch 4) / "," (AirTouch 5)"""
+    t = ("|" if gen == 4 else ",").join(versions).encode()
+    return msg(0x1F, bytes([0xFF, 0x30, update, len(t)]) + t)
+
+
+# ================================================================================================ random installations, a console with memory
+DEFINED = {
+    4: dict(power=[0, 1], mode=[0, 1, 2, 3, 4, 8, 9], fan=[0, 1, 2, 3, 4, 5, 6], zpower=[0, 1, 3], ac_ids=4, flags=["spill", "timer"]),
+    5: dict(power=[0, 1, 2, 3, 5], mode=[0, 1, 2, 3, 4, 8, 9], fan=[0, 1, 2, 3, 4, 5, 6, 9, 10, 11, 12, 13, 14], zpower=[0, 1, 3], ac_ids=16,
+            flags=["turbo", "bypass", "spill", "timer"]),
+}
+AC_NAMES = ["Main", "Upstairs AC unit", "Klima ä", "A", "Daikin", "x" * 16, ""]
+ZONE_NAMES = ["Living", "Bed 1", "Café", "", "Küche", "Zone", "日本", "12345678", "a", "Kids"]
+ERR_TEXTS = [b"ER: FFFE", b"E5", "Fehler ä".encode(), b"x" * 40, b"", b"AC error 7"]
+
+
+def random_install(rng, gen, n_acs=None, n_zones=None):
+    """1..4 ACs (any numbers), 0..16 zones (AirTouch 5: contiguous per AC from a start zone; AirTouch 4: 1..16 groups spread over the
+    ACs by the group display bitmap, start/count bytes consistent with it when the groups happen to be contiguous, else 0/0)"""
+    d = DEFINED[gen]
+    n_acs = rng.randint(1, 4) if n_acs is None else n_acs
+    if n_zones is None:
+        n_zones = rng.choice([0, 1, 2, 3, 4, 5, 6, 8, 11, 16] if gen == 5 else [1, 2, 3, 4, 5, 6, 8, 11, 16])
+    ids = rng.sample(range(d["ac_ids"]), n_acs)
+    if rng.random() < 0.6:
+        ids.sort()
+    if gen == 5:
+        first = rng.choice([0, 0, 0, rng.randint(0, 16 - n_zones)])
+        numbers = list(range(first, first + n_zones))
+        cuts = sorted(rng.randint(0, n_zones) for _ in range(n_acs - 1))
+        bounds = [0] + cuts + [n_zones]
+        owner = [numbers[bounds[i]:bounds[i + 1]] for i in range(n_acs)]
+    else:
+        numbers = sorted(rng.sample(range(16), n_zones))
+        owner = [[] for _ in range(n_acs)]
+        for z in numbers:
+            owner[rng.randrange(n_acs)].append(z)
+    acs = []
+    for i, ac in enumerate(ids):
+        lo, hi = rng.randint(10, 20), rng.randint(24, 35)
+        a = dict(id=ac, name=rng.choice(AC_NAMES), modes=rng.choice([0x1F, 0x1F, rng.randint(1, 31)]),
+                 fans=rng.choice([0x7F if gen == 4 else 0xFF] * 2 + [rng.randint(1, 0x7F if gen == 4 else 0xFF)]), lo=lo, hi=hi,
+                 zones=owner[i], mode=rng.choice([0, 1, 2, 3, 4]), power=rng.choice(d["power"]), fan=rng.choice(d["fan"][:7]),
+                 setpoint=rng.randint(16, 30))
+        if gen == 5:
+            a["lo_heat"], a["hi_heat"] = rng.randint(10, 20), rng.randint(24, 35)
+            if not owner[i]:
+                a["start_zone"] = 0
+        else:
+            zs = owner[i]
+            if zs and zs == list(range(zs[0], zs[0] + len(zs))):
+                a["start"], a["count"] = zs[0], len(zs)
+        acs.append(a)
+    zones = {}
+    for z in numbers:
+        zones[z] = dict(name=rng.choice(ZONE_NAMES), sensor=bool(rng.randint(0, 1)), turbo=bool(rng.randint(0, 1)), ctrl=rng.randint(0, 1),
+                        power=rng.choice(d["zpower"]), damper=rng.choice([0, 5, 50, 100, rng.randint(0, 100)]), setpoint=rng.randint(16, 30))
+    return dict(acs=acs, zones=zones, version=rng.choice(["1.2.3", "1.0.5", "9.9"]), update=rng.choice([0, 0, 1]))
+
+
+class Console:
+    """A console that remembers the last record it reported per entity, to build changed / unchanged / partial status frames of
+    defined values only.  Every method returns one `msg` op line."""
+
+    def __init__(self, rng, gen, inst):
+        self.rng, self.gen, self.inst = rng, gen, inst
+        self.d = DEFINED[gen]
+        self.ac_ids = [a["id"] for a in inst["acs"]]
+        self.zone_ids = sorted(inst["zones"])
+        self.ac = {}
+        for a in inst["acs"]:
+            self.ac[a["id"]] = dict(id=a["id"], power=a.get("power", 1), mode=a.get("mode", 4), fan=a.get("fan", 0), temp=235, err=0,
+                                    setpoint=a.get("setpoint", 22) if gen == 4 else a.get("setpoint", 22) * 10 - 100)
+        self.zone = {}
+        for z in self.zone_ids:
+            zd = inst["zones"][z]
+            self.zone[z] = dict(id=z, power=zd.get("power", 1), ctrl=zd.get("ctrl", 0), damper=zd.get("damper", 50), sensor=int(bool(zd.get("sensor"))),
+                                temp=225 if zd.get("sensor") else None, turbo=int(bool(zd.get("turbo"))),
+                                setpoint=zd.get("setpoint", 22) if gen == 4 else zd.get("setpoint", 22) * 10 - 100)
+        self.timer = {ac: (None, None) for ac in self.ac_ids}
+        self.last = None
+
+    # ------------------------------------------------------------------ random defined field values
+    def ac_temp(self):
+        rng = self.rng
+        return rng.choice([235, 0, -500, 1500 if self.gen == 5 else 1539, 199, 301, None, rng.randint(-500, 1500)])
+
+    def ac_setpoint(self):
+        rng = self.rng
+        if self.gen == 4:
+            return rng.choice([0, 16, 22, 30, 63, rng.randint(0, 63)])
+        return rng.choice([0, 60, 115, 120, 250, 251, 255, rng.randint(0, 255)])
+
+    def ac_field(self, r, f):
+        rng, d = self.rng, self.d
+        if f in ("power", "mode", "fan"):
+            r[f] = rng.choice(d[f])
+        elif f in d["flags"]:
+            r[f] = rng.randint(0, 1)
+        elif f == "setpoint":
+            r[f] = self.ac_setpoint()
+        elif f == "temp":
+            r[f] = self.ac_temp()
+        elif f == "err":
+            r[f] = rng.choice([0, 0, 0, 5, 5, 0xFFFE, 0xFFFF, 256, rng.randint(1, 0xFFFF)])
+
+    def zone_field(self, r, f):
+        rng = self.rng
+        if f == "power":
+            r[f] = rng.choice(self.d["zpower"])
+        elif f in ("ctrl", "sensor", "batt", "spill", "turbo"):
+            r[f] = rng.randint(0, 1)
+        elif f == "damper":
+            r[f] = rng.choice([0, 1, 50, 99, 100, rng.randint(0, 100)])
+        elif f == "setpoint":
+            r[f] = self.ac_setpoint() if self.gen == 4 else rng.choice([0, 60, 115, 120, 250, 254, 255, rng.randint(0, 255)])
+        elif f == "temp":
+            r[f] = rng.choice([225, 0, -500, 1500 if self.gen == 5 else 1539, None, rng.randint(-500, 1500)])
+
+    AC_FIELDS = ["power", "mode", "fan", "setpoint", "temp", "err"]
+    ZONE_FIELDS = ["power", "ctrl", "damper", "setpoint", "sensor", "temp", "batt", "spill"]
+
+    def evolve(self, r, fields, how):
+        """how: 'same' | 'one' | 'few' | 'all'"""
+        rng = self.rng
+        r = dict(r)
+        if how == "one":
+            self.field(r, rng.choice(fields))
+        elif how == "few":
+            for f in rng.sample(fields, rng.randint(2, 3)):
+                self.field(r, f)
+        elif how == "all":
+            for f in fields:
+                self.field(r, f)
+        return r
+
+    def field(self, r, f):
+        (self.ac_field if "mode" in r else self.zone_field)(r, f)
+
+    # ------------------------------------------------------------------ frames
+    def emit(self, op):
+        self.last = op
+        return op
+
+    def ac_frame(self, recs):
+        for r in recs:
+            if r["id"] in self.ac:
+                self.ac[r["id"]] = dict(r)
+        if self.gen == 4:
+            return self.emit(at4_ac_status(recs))
+        return self.emit(at5_ac_status(recs, stride=self.rng.choice([10, 10, 10, 8, 12])))
+
+    def zone_frame(self, recs):
+        for r in recs:
+            if r["id"] in self.zone:
+                self.zone[r["id"]] = dict(r)
+        if self.gen == 4:
+            return self.emit(at4_group_status(recs))
+        return self.emit(at5_zone_status(recs, stride=self.rng.choice([8, 8, 8, 10])))
+
+    def timer_frame(self, timers):
+        """timers: dict ac -> (on, off)"""
+        for ac, v in timers.items():
+            if ac in self.timer:
+                self.timer[ac] = v
+        if self.gen == 4:
+            full = {ac: self.timer.get(ac, (None, None)) for ac in range(4)}
+            full.update(timers)
+            return self.emit(at4_timer_status(full))
+        return self.emit(at5_timer_status([(ac, on, off) for ac, (on, off) in timers.items()], stride=self.rng.choice([9, 9, 11])))
+
+    def random_timer(self):
+        rng = self.rng
+        k = rng.random()
+        if k < 0.35:
+            return None
+        if k < 0.45:
+            return (1, rng.randint(0, 23), rng.randint(0, 59))       # disabled, with left-over time digits
+        return (rng.choice([0, 7, 23, rng.randint(0, 23)]), rng.choice([0, 30, 59, rng.randint(0, 59)]))
+
+    def unknown_ac(self):
+        cand = [i for i in range(self.d["ac_ids"]) if i not in self.ac_ids]
+        return self.rng.choice(cand) if cand else None
+
+    def unknown_zone(self):
+        cand = [i for i in range(64) if i not in self.zone_ids]       # six bits in both generations' records
+        return self.rng.choice(cand)
+
+    def random_ac_frame(self):
+        rng = self.rng
+        fields = self.AC_FIELDS + self.d["flags"]
+        ids = rng.sample(self.ac_ids, rng.randint(1, len(self.ac_ids)))
+        if rng.random() < 0.15:
+            ids.append(rng.choice(self.ac_ids))                       # the same AC twice in one frame
+        recs = [self.evolve(self.ac[i], fields, rng.choice(["same", "one", "one", "few", "all"])) for i in ids]
+        u = self.unknown_ac()
+        if u is not None and rng.random() < 0.2:
+            recs.insert(rng.randint(0, len(recs)), self.evolve(dict(self.ac[self.ac_ids[0]], id=u), fields, "all"))
+        return self.ac_frame(recs)
+
+    def random_zone_frame(self):
+        rng = self.rng
+        fields = self.ZONE_FIELDS + (["turbo"] if self.gen == 4 else [])
+        ids = rng.sample(self.zone_ids, rng.randint(1, len(self.zone_ids))) if self.zone_ids else []
+        if ids and rng.random() < 0.15:
+            ids.append(rng.choice(self.zone_ids))
+        recs = [self.evolve(self.zone[i], fields, rng.choice(["same", "one", "one", "few", "all"])) for i in ids]
+        if rng.random() < 0.2 or not recs:
+            proto = dict(id=0, power=1, ctrl=0, damper=50, sensor=1, temp=225, setpoint=22 if self.gen == 4 else 120)
+            recs.insert(rng.randint(0, len(recs)), self.evolve(dict(proto, id=self.unknown_zone()), fields, "all"))
+        return self.zone_frame(recs)
+
+    def random_timer_frame(self):
+        rng = self.rng
+        if self.gen == 4:
+            tm = {ac: (self.random_timer(), self.random_timer()) for ac in range(4) if rng.random() < 0.5}
+        else:
+            ids = rng.sample(self.ac_ids, rng.randint(1, len(self.ac_ids)))
+            u = self.unknown_ac()
+            if u is not None and rng.random() < 0.2:
+                ids.insert(rng.randint(0, len(ids)), u)
+            tm = {ac: (self.random_timer(), self.random_timer()) if rng.random() < 0.8 else self.timer.get(ac, (None, None)) for ac in ids}
+        return self.timer_frame(tm)
+
+    def random_err_frame(self):
+        rng = self.rng
+        u = self.unknown_ac()
+        ac = u if (u is not None and rng.random() < 0.1) else rng.choice(self.ac_ids)
+        return self.emit(err_info(self.gen, ac, rng.choice(ERR_TEXTS)))
+
+    def random_version_frame(self):
+        rng = self.rng
+        return self.emit(console_version(self.gen, rng.choice([0, 0, 1, 1, 2, 255]),
+                                         rng.choice([["1.2.3"], ["1.2.4"], ["1.0.5", "2.0"], ["9.9", "1.2.3"], ["1.2.3"]])))
+
+    def random_frame(self):
+        k = self.rng.randint(0, 19)
+        if k == 0 and self.last:
+            return self.last                                          # the console repeats itself byte for byte
+        if k <= 7:
+            return self.random_ac_frame()
+        if k <= 13:
+            return self.random_zone_frame()
+        if k <= 15:
+            return self.random_timer_frame()
+        if k <= 17:
+            return self.random_err_frame()
+        return self.random_version_frame()
